@@ -183,6 +183,14 @@ class Run:
             return [], []
         t = time.time()
         real = proto.run_real(lines)
+        # an operation that hit the time limit is run once more, alone, with eight times the limit: only an operation that
+        # still does not return counts as `ERR Timeout` (the unchanged code needs milliseconds for every operation)
+        late = [i for i, r in enumerate(real) if r == "ERR Timeout"][:4]
+        if late:
+            again = proto.run_real_slow([lines[i] for i in late])
+            for i, o in zip(late, again):
+                real[i] = o[0]
+                self.count("reran_after_timeout")
         model = proto.run_model(lines) if compare_model else [None] * len(lines)
         nd = 0
         for i, l in enumerate(lines):
